@@ -524,6 +524,10 @@ def run(ctx, tier):
     results += c12.header_extent(ctx, rule='C02.header-extent')
     import c06
     results += c06.open_existing(ctx, rule='C02.open-existing')
+    # the syncs of a commit run on the file behind the writer lock: once the lock is gone the next writer reuses the pages of the state before this commit,
+    # which a header that is not yet durable still needs
+    import c09
+    results += c09.file_via_guard(ctx, rule='C02.file-via-guard')
     return dict(
         results=results,
         stats=dict(ctx.stats),
